@@ -23,7 +23,11 @@ Inductive case :=
   (* block-driven history of one stake address through State.ProcessBlock: per
      block the operations the block means for the address (its transaction, then
      the votes that expire in this block) and (rights, used) observed after it *)
-| CVBlocks (id : N) (fee : Z) (blocks : list (list vop * (Z * Z))).
+| CVBlocks (id : N) (fee : Z) (blocks : list (list vop * (Z * Z)))
+  (* the same histories against the block model with lock times: per block its
+     height, the transaction of the address if any, and (rights, used, votes
+     locked on producers) observed after State.ProcessBlock *)
+| CLBlocks (id : N) (fee : Z) (blocks : list (Z * option btx * (Z * Z * Z))).
 
 Fixpoint dseq (a : acct) (ops : list dop) (obs : list (Z * Z * Z)) : bool :=
   match ops, obs with
@@ -45,6 +49,14 @@ Fixpoint vblocks (fee : Z) (s : stake) (bs : list (list vop * (Z * Z))) : bool :
   | (ops, t) :: r => let s' := vrun true fee s ops in stake_eqb s' t && vblocks fee s' r
   end.
 
+Fixpoint lblocks (fee : Z) (s : vstate) (bs : list (Z * option btx * (Z * Z * Z))) : bool :=
+  match bs with
+  | [] => true
+  | (h, t, (r, u, l)) :: rest =>
+      let s' := bstep fee s (h, t) in
+      (vs_rights s' =? r) && (vs_used s' =? u) && (locked_sum (vs_votes s') =? l) && lblocks fee s' rest
+  end.
+
 Definition check (c : case) : option N :=
   match c with
   | CRet id one refs change outs sg ok =>
@@ -58,6 +70,7 @@ Definition check (c : case) : option N :=
       if Bool.eqb (retvotes_check fee (mk_stake (r, u)) others value) ok then None else Some id
   | CVSeq id fee ops obs => if vseq fee (mk_stake (0, 0)) ops obs then None else Some id
   | CVBlocks id fee bs => if vblocks fee (mk_stake (0, 0)) bs then None else Some id
+  | CLBlocks id fee bs => if lblocks fee {| vs_rights := 0; vs_used := 0; vs_votes := [] |} bs then None else Some id
   end.
 
 Definition mismatches (cs : list case) : list N :=
